@@ -199,6 +199,13 @@ Definition mtext_id (m : mtext) : str :=
   | MGettext i | MNgettext i _ | MPgettext _ i | MNpgettext _ i _ => i
   end.
 
+(** A message a catalog can hold: it has a non-empty id, or it is a plural
+    message (whose plural form is looked up even when the id is empty).  The
+    only lookups that are not reportable are gettext("") / pgettext(c, ""). *)
+Definition reportable (m : mtext) : bool :=
+  nonempty (mtext_id m)
+  || match m with MNgettext _ _ | MNpgettext _ _ _ => true | _ => false end.
+
 (** * Filters *)
 
 Inductive kwname := KwPlural | KwCount | KwOther (n : N).
@@ -513,12 +520,12 @@ Definition collapse_ws (s : str) : str := collapse_aux s [] false.
 Definition msg_text (b : mblock) : str :=
   collapse_ws (strip (concat (map part_text (mb_parts b)))).
 
-(** [TranslateNode.messages()] (after the fix): zero or one message. *)
+(** [TranslateNode.messages()] (after the fixes 0004, 0007): zero or one message. *)
 Definition tr_messages (args : list targ) (sing : mblock) (plural : option mblock)
   : option mtext :=
-  match mb_parts sing with
-  | [] => None                       (* if not self.singular_block.block.nodes *)
-  | _ =>
+  match mb_parts sing, plural with
+  | [], None => None    (* if not self.singular_block.block.nodes and not self.plural_block *)
+  | _, _ =>
       let ctx := match targ_last TaContext args with
                  | Some (PStr c) => if nonempty c then Some c else None
                  | _ => None
